@@ -210,12 +210,21 @@ func (fr *frame) load(p pointer) value {
 	if p.sym != nil {
 		return fr.loadSym(p)
 	}
+	if fr.m.pooled != nil {
+		fr.m.checkPooled(p.obj, fr)
+	}
 	if p.obj.global != nil {
 		fr.m.noteGlobalAccess(p.obj.global, false)
 	} else if fr.m.trackShared {
 		fr.m.noteObjAccess(p.obj, false, fr)
 	}
 	return copyVal(*cellOf(p.obj, p.path))
+}
+
+func (m *Machine) checkPooled(o *object, fr *frame) {
+	if at, in := m.pooled[o]; in && m.trackShared {
+		panic(pathEnd{kind: "fail", msg: "an object is used after it was returned to a sync.Pool at " + at + " (another call may own it by now)", site: fr.stack()})
+	}
 }
 
 func (fr *frame) store(p pointer, v value) {
@@ -229,6 +238,9 @@ func (fr *frame) store(p pointer, v value) {
 		p = fr.concretizePtr(p)
 	}
 	m := fr.m
+	if m.pooled != nil {
+		m.checkPooled(p.obj, fr)
+	}
 	if p.obj.frozen {
 		m.frozenWrites = append(m.frozenWrites, fr.pos())
 		if m.failOnFrozen {
